@@ -4,7 +4,7 @@ from pyvc import cli, inst, verify
 from pyvc.values import has_quant, mentions_decl, str_order_quantified
 repo, world, ex, R = cli.load()
 ex.opaque = {k for k, s in R.specs.items() if getattr(s, "opaque", False)}
-key=[k for k in R.specs if sys.argv[1] in k][0]
+key=sorted([k for k in R.specs if sys.argv[1] in k], key=len)[0]
 def dbg(hyps, goal, axioms=(), timeout_ms=10000, want_model=True):
     hyps=list(hyps)
     if mentions_decl(hyps+[goal],"str_lt"): hyps+=str_order_quantified()
